@@ -5,8 +5,11 @@ Streams
   ellipsis        Td.convertEllipsis vs tensordict.utils.convert_ellipsis_to_idx              (correspondence)
   batch_size      Td.getitemBatchSize vs tensordict.utils._getitem_batch_size                 (correspondence)
   getitem         Td.getitem vs td[idx]: outcome, batch_size, names, every leaf (values = source offsets), view bit
-  setitem         Td.setitem vs td[idx] = value: outcome and the full content of every leaf afterwards
-  oracle          torch on a proxy tensor of the batch shape + torch on every leaf (the property itself, on the real code)
+  setitem         Td.setitem vs td[idx] = scalar / tensor: outcome and the full content of every leaf afterwards
+  setitem_collection  Td.setitemColl vs td[idx] = dict / TensorDict (expand, batch reassignment, keys missing from the destination)
+  oracle          torch on a proxy tensor of the batch shape + torch on every leaf (the property itself, on the real code);
+                  extended domain (oracle only): numpy index arrays
+  corpus/witness  minimised past failures and the fixed witnesses of the known defects, replayed on every run
 """
 from __future__ import annotations
 
@@ -29,21 +32,20 @@ def main():
                 "and, in thorough, exhaustive enumeration of a fixed alphabet; a case is non-trivial if it is a distinct (batch shape, feature shapes, index, read|write value) tuple")
     run.trusted += [
         "TorchSpec (lean/TdVerif/Model/C03Index.lean, namespace TorchSpec): our rendering of torch's index semantics; validated on every run against torch itself (stream spec_vs_torch), not proved",
-        "Model/C03Index.lean namespace Td: hand transcription of convert_ellipsis_to_idx, _getitem_batch_size, _get_names_idx, __getitem__, _index_tensordict, __setitem__; tied by the correspondence streams",
+        "Model/C03Index.lean namespace Td: hand transcription of convert_ellipsis_to_idx, _check_index_ndim, _getitem_batch_size, _get_names_idx, __getitem__, _index_tensordict, __setitem__ (both branches, incl. the _SubTensorDict path for keys missing from the destination); tied by the correspondence streams",
         "SliceSpec.indices = transcription of CPython slice.indices (validated by C18 against slice.indices)",
         "values inside leaves are computed by torch itself in the implementation (tensor[index]); what is modelled is which torch call is made with which index on which operand, and the metadata computed beside it",
     ]
     run.assumptions += [
-        "index tensors / masks are well formed (data length = numel of their shape); at most one Ellipsis per index (torch 2.14 accepts several, tensordict rejects: excluded point, probed in stream `excluded`)",
-        "numpy arrays, nested python lists and lazy stacks / tensorclasses are exercised by the oracle only (extended domain), not modelled",
+        "index tensors / masks are well formed (data length = numel of their shape); at most one Ellipsis per index (torch 2.14 accepts several, tensordict rejects: excluded point, probed on every run and recorded in the evidence notes)",
+        "numpy index arrays are exercised by the oracle only (extended domain), not modelled; nested python lists, lazy stacks and tensorclasses are not exercised here (C08 / C15)",
     ]
     run.build_and_audit(["TdVerif.Props.C03"])
     drv = run.driver()
 
     if run.replay:
+        # the oracle on the recorded failing inputs first (site `replay`), then the whole run with the recorded seed / tier
         S.replay(run, drv, run.replay)
-        run.finish("proof")
-        return
 
     S.corpus(run, drv)
     S.spec_vs_torch(run, drv)
